@@ -35,12 +35,29 @@ def run(tier, seed):
     # every prefix is continued twice: as it is, and after one more timer expiry everywhere whose messages are lost
     runs = b.run_random(PROP, seed, tier, suffix=True, suffix_mode=1) + b.run_random(PROP, seed, tier, suffix=True, suffix_mode=2, tag="_lossy") \
         + b.run_scenarios(PROP)
+    # ---- the REAL replica loop (bft::Config::run: own view timer, bootstrap, inbound queue, proposer task) under a router with a bad period
+    loop_runs = []
+    common.cargo_build()
+    dl = common.outdir(PROP, "loop")
+    for cfgname in (["W4a", "U6", "H4"] if tier == "quick" else ["W4a", "W4c", "U6", "H4"]):
+        for sc in ["fresh", "lossy", "restart"]:
+            for k in range(1 if tier == "quick" else 6):
+                s = seed * 10 + k
+                rp = os.path.join(dl, f"loop_{cfgname}_{sc}_{s}.json")
+                if os.path.exists(rp):
+                    os.remove(rp)
+                rc, so, se = common.run_bin("bft_loop", [rp, s, cfgname, sc], timeout=600)
+                if rc != 0 and not os.path.exists(rp):
+                    raise common.ToolError(f"bft_loop failed rc={rc}: {se[-600:]}")
+                r = common.load_report(rp)
+                loop_runs.append({"config": cfgname, "scenario": sc, "seed": s, "trace": None, "report": r, "steps": 0, "suffix": 0})
+    runs = runs + loop_runs
     cnt = b.counters(runs)
-    prog = [run["report"]["samples"][0].get("progress") for run in runs if run["report"]["samples"]]
+    prog = [run["report"]["samples"][0].get("progress") for run in runs if run["report"]["samples"] and run not in loop_runs]
     oks = [p for p in prog if p and p.get("ok")]
     viol = 0
     try:
-        b.driver_failures(PROP, runs, {"no_progress", "panic"})
+        b.driver_failures(PROP, runs, {"no_progress", "panic", "disagreement"})
     except common.Violation as v:
         viol = 1
         # make the replay file self-contained
@@ -57,6 +74,8 @@ def run(tier, seed):
             "max_timer_rounds_needed": max([p.get("timer_rounds", 0) for p in oks] or [0]),
             "inbound_queue": {"in": cnt.get("queue_in", 0), "out": cnt.get("queue_out", 0)},
             "vacuity_guard": "Progress violated with Weaken=ignore_future_newview",
+            "real_loop_runs": [{"config": x["config"], "scenario": x["scenario"], "ms_to_progress": x["report"]["counters"].get("ms_to_progress"),
+                                "delivered": x["report"]["counters"].get("delivered"), "dropped": x["report"]["counters"].get("dropped")} for x in loop_runs],
         }
         common.write_evidence(PROP, tier, seed, "model_checking", cov,
                               ["synchrony = every message delivered to every correct replica before any timer fires; Byzantine validators silent in the suffix",
@@ -68,4 +87,15 @@ def run(tier, seed):
 
 
 def replay(path, seed):
+    import json
+    c = json.load(open(path))
+    case = c.get("case") or {}
+    if isinstance(case, dict) and "scenario" in case and "config" in case and "mode" not in case:
+        common.cargo_build()
+        rp = os.path.join(common.outdir(PROP, "loop"), "replay.json")
+        common.run_bin("bft_loop", [rp, case["seed"], case["config"], case["scenario"]], timeout=600)
+        r = common.load_report(rp)
+        common.handle_failures(PROP, [f for f in r["failures"] if f["key"] in ("no_progress", "panic", "disagreement")], "replay_failure")
+        log("replay: no violation")
+        return 0
     return b.replay_random(PROP, path, "TraceChonky_none.cfg", set())
